@@ -162,6 +162,10 @@ type vC08World struct {
 	mu   sync.Mutex
 	srvs []*vC08Srv
 	log  []vC08LogEnt
+	// hook, when set, runs in the server goroutine before a query is answered (and before the
+	// reply is computed): the race driver uses it to run another resolution, move the clock or
+	// change what the parent publishes while a referral is "on the wire"
+	hook func(srv int, q dns.Question)
 }
 
 func (w *vC08World) start(t *testing.T, zone string) *vC08Srv {
@@ -224,6 +228,12 @@ func (w *vC08World) answer(s *vC08Srv, r *dns.Msg) *dns.Msg {
 	name := dns.CanonicalName(q.Name)
 	reply := new(dns.Msg)
 	reply.SetReply(r)
+	w.mu.Lock()
+	hook := w.hook
+	w.mu.Unlock()
+	if hook != nil {
+		hook(s.id, q)
+	}
 	w.mu.Lock()
 	defer w.mu.Unlock()
 	ent := vC08LogEnt{srv: s.id, name: name, qtype: q.Qtype}
